@@ -251,11 +251,11 @@ def mask_cols(mask, base=1):
 def gen_random(rng):
     kind = rng.choice(['series', 'arr1', 'frame', 'frame', 'arr2'])
     if kind in ('series', 'arr1'):
-        n = rng.choice([0, 1, 2, 5, 11, 20, 40])
+        n = rng.choice([0, 1, 2, 5, 11, 20, 40]) if rng.random() > 0.03 else rng.choice([130, 260])       # a few long vectors in every tier: any size-dependent path is reached
         p = rng.choice([0.1, 0.4, 0.7, 1.0])
         cols = [[None if rng.random() < p else float(i + 1) for i in range(n)]]
     else:
-        n = rng.choice([0, 1, 3, 5, 8])
+        n = rng.choice([0, 1, 3, 5, 8]) if rng.random() > 0.03 else rng.choice([70, 140])
         k = rng.choice([1, 2, 3])
         p = rng.choice([0.2, 0.5, 0.8])
         cols = [[None if rng.random() < p else float(100 * j + i + 1) for i in range(n)] for j in range(k)]
